@@ -33,6 +33,10 @@ mod resolve_ref;
 mod suite_programs;
 mod suite_unify;
 mod suite_parser;
+mod suite_scaling;
+mod suite_listing;
+mod suite_print;
+mod earley;
 
 use std::env;
 
@@ -58,6 +62,9 @@ fn main() {
                 "programs" => suite_programs::run(&mut out, &tier, seed),
                 "unify" => suite_unify::run(&mut out, &tier, seed),
                 "parser" => suite_parser::run(&mut out, &tier, seed),
+                "scaling" => suite_scaling::run(&mut out, &tier, seed),
+                "listing" => suite_listing::run(&mut out, &tier, seed),
+                "print" => suite_print::run(&mut out, &tier, seed),
                 "progstat" => suite_progstat::run(&mut out, &tier, seed),
                 _ => {
                     eprintln!("unknown suite {suite}");
